@@ -38,6 +38,7 @@ def main():
     model, _, _ = vlib.run_lines(drv, ["rw %s %s" % (ctl_args(c), vlib.hx(r)) for c, r, _, _, _ in cases])
     spec, _, _ = vlib.run_lines(drv, ["spec %s %s" % (ctl_args(c), vlib.hx(r)) for c, r, _, _, _ in cases])
     fails, mism = [], []
+    import gen_common; gen_common.translator_selfcheck(ck, rb, mism)
     for (c, r, impl, phase, before), m, s in zip(cases, model, spec):
         ck.evaluated(); ck.count("rewrite_" + phase); ck.count("class_" + impl[:1])
         ck.nontrivial((r, impl))
